@@ -205,8 +205,19 @@ func (wr *warnResponseWrapper) Write(b []byte) (int, error) {
 	return wr.tee.Write(b)
 }
 
+// isInformational reports whether status is a 1xx code that net/http sends
+// as an interim response: the final status is still to come.
+func isInformational(status int) bool {
+	return status >= 100 && status <= 199 && status != http.StatusSwitchingProtocols
+}
+
 // WriteHeader implements http.ResponseWriter.
 func (wr *warnResponseWrapper) WriteHeader(status int) {
+	if isInformational(status) && !wr.headerWritten {
+		// Interim response: pass it on, the final status is not decided yet.
+		wr.w.WriteHeader(status)
+		return
+	}
 	if !wr.headerWritten {
 		// If the header hasn't been written, record the status for response
 		// validation.
@@ -262,6 +273,11 @@ func (wr *strictResponseWrapper) Write(b []byte) (int, error) {
 
 // WriteHeader implements http.ResponseWriter.
 func (wr *strictResponseWrapper) WriteHeader(status int) {
+	if isInformational(status) {
+		// Interim responses are not the response to validate, and nothing
+		// reaches the client before validation in strict mode.
+		return
+	}
 	if !wr.headerWritten {
 		wr.status = status
 		wr.headerWritten = true
